@@ -62,3 +62,13 @@ func TestStreams(t *testing.T) {
 		}
 	})
 }
+
+// TestStreamDesigns: the same relation as TestStreams over generated designs
+// (streams profile): streaming methods whose payload is mapped to path, query
+// and headers and whose streamed messages are drawn from the whole type
+// grammar of the generator.
+func TestStreamDesigns(t *testing.T) {
+	streamcase.RunDesigns(t, "C02", "c02sd", streamcase.ClientToServer, func(meth *m.Method, c *streamcase.Case) bool {
+		return len(c.Spec.Send) > 0 || meth.Payload != nil
+	})
+}
